@@ -76,6 +76,10 @@ class ProgRunner:
                 self.tag(t)
             if c.get("nontrivial", True):
                 self.distinct.add(c["src"])
+            if io.startswith("bad-request") or mo.startswith("bad-request"):
+                self.ctx.violation("machinery:bad-request", {"why": "a generated request was not understood", "request": lines[0][:10] + "…",
+                                                              "case": c["src"][:600], "impl_output": io[:100], "model_output": mo[:100]}, no_input=True)
+                continue
             di, dm = parse(io), parse(mo)
             if len(self.samples) < 6 and self.n % 7 == 1:
                 self.samples.append({"request": (c.get("cmd", cmd) + " " + c["src"])[:300],
@@ -85,13 +89,18 @@ class ProgRunner:
                 self.tag("impl-panic")
                 self.impl_fail.append((c, io, "the implementation panicked / crashed"))
                 continue
+            model_usable = True
             if di["_kind"] != dm["_kind"]:
                 self.model_mismatch.append((c, io, mo, "kind %s vs %s" % (di["_kind"], dm["_kind"])))
-                continue
+                if di["_kind"] != "ok":
+                    continue
+                # the implementation answered: its outcome is still judged against the property's own expectation below
+                model_usable = False
+                dm = {"_kind": "none"}
             if di["_kind"] != "ok":
                 self.tag("rejected-op")
                 continue
-            diff = [k for k in SHAPE_KEYS if di.get(k) != dm.get(k)]
+            diff = [k for k in SHAPE_KEYS if di.get(k) != dm.get(k)] if model_usable else []
             if diff:
                 self.model_mismatch.append((c, io, mo, "shape fields differ: %s" % ",".join(diff)))
             # --- expectation from the property statement (implementation-vs-property)
@@ -108,7 +117,7 @@ class ProgRunner:
                 V3 = ("sat", "unsat", "sizeerr")
                 if iv in V3 and mv in V3 and iv != mv:
                     self.model_mismatch.append((c, io, mo, "impl %s vs model %s" % (iv, mv)))
-                if iv not in V3 and not iv.startswith("proof-fails"):
+                if iv not in V3 and not iv.startswith("proof-fails") and model_usable:
                     self.model_mismatch.append((c, io, mo, "impl outcome %s has no model counterpart" % iv))
                 if c.get("expect") == "sizeerr" and iv != "sizeerr":
                     self.impl_fail.append((c, io, "the instance has another number of constraints / public-input rows than the compiled "
@@ -176,6 +185,11 @@ class LineRunner:
                 self.tag(t)
             if len(self.samples) < 6 and self.n % 11 == 1:
                 self.samples.append({"request": c["line"][:240], "impl": io[:160], "model": mo[:160]})
+            if (io.startswith("bad-request") or mo.startswith("bad-request")) and not c.get("malformed_ok"):
+                # a malformed request is a defect of this machinery, never an agreement
+                self.ctx.violation("machinery:bad-request", {"why": "a generated request was not understood", "request": c["line"][:600],
+                                                              "impl_output": io[:100], "model_output": mo[:100]}, no_input=True)
+                continue
             base = mo.replace(" spec=ok", "").replace(" spec=MISMATCH", "").replace(" spec=REJECTED", "")
             if "spec=ok" in mo:
                 self.spec_checked += 1
